@@ -4,7 +4,7 @@ import TunnoxModel.Spec.C15
 Line protocol for C15.
 
 case  := `st <store> cas <0|1> ttl <ms> pre <n> (<kind> <id> <expMs>)* thr <n> (<inst> <nops> op*)* sch <n> (<0 tid | 1 dt>)*`
-op    := `g <kind> <plen> <p>*` | `r <kind> <id>` | `o <kind>` | `w <kind>`
+op    := `g <kind> <plen> <p>*` | `r <kind> <id>` | `o` (release own) | `w` (renew own)
          candidate of attempt a = p[a % plen]; kind 0: p = raw 64-bit random value (id = clientCand p);
          kinds 1..3: p = the id as a number (base-|Charset| reading of the 8 random characters);
          kind 9 (node slot): candidate = NodeIDMin + a.
@@ -125,14 +125,12 @@ def parseOps : Nat → List String → Option (List Op × List String)
     let k ← k.toNat?; let i ← i.toNat?
     let (ops, rest) ← parseOps n ts
     pure (.rel k i :: ops, rest)
-  | n + 1, "o" :: k :: ts => do
-    let k ← k.toNat?
+  | n + 1, "o" :: ts => do
     let (ops, rest) ← parseOps n ts
-    pure (.relOwn k :: ops, rest)
-  | n + 1, "w" :: k :: ts => do
-    let k ← k.toNat?
+    pure (.relOwn :: ops, rest)
+  | n + 1, "w" :: ts => do
     let (ops, rest) ← parseOps n ts
-    pure (.renewOwn k :: ops, rest)
+    pure (.renewOwn :: ops, rest)
   | _, _ => none
 
 def parseThreads : Nat → List String → Option (List (Nat × List Op) × List String)
@@ -178,7 +176,19 @@ def parseCase (ts : List String) : Option Case :=
 
 def paramsOf (c : Case) : Params := ⟨c.cas, ttlOf c.ttl, maxOf, true⟩
 
+/-- Capabilities of the shipped stores and the constants, as the extractor saw them. -/
+def capsLine : String :=
+  s!"mem=1 red=1 hyb=1 hybrt=1 legacy=10 maxatt={idgen.MaxAttempts} ttlms={idgen.DefaultIDTTL / 1000000} " ++
+  s!"min={idgen.ClientIDMin} max={idgen.ClientIDMax} rlen={idgen.RandomPartLength} " ++
+  s!"nodettlms={node.NodeIDLockTTL / 1000000} nodemin={node.NodeIDMin} nodemax={node.NodeIDMax}"
+
+def stripFree (ts : List String) : List String :=
+  match ts with
+  | "free" :: r => r
+  | _ => ts
+
 def runModel (ts : List String) : String :=
+  if ts = ["caps"] then capsLine else
   match parseCase ts with
   | none => "bad-case"
   | some c =>
@@ -186,7 +196,11 @@ def runModel (ts : List String) : String :=
     renderObs fin.trace (liveKeys fin.store fin.now)
 
 def runHolds (caseToks obsToks : List String) : String :=
-  match parseCase caseToks, parseObs obsToks with
+  if caseToks = ["caps"] then
+    -- every store the server factory can build takes the atomic path
+    boolStr (obsToks.take 4 == ["mem=1", "red=1", "hyb=1", "hybrt=1"])
+  else
+  match parseCase (stripFree caseToks), parseObs obsToks with
   | some c, some (tr, view) => boolStr (holds (ttlOf c.ttl) c.pre tr view)
   | _, _ => "false"
 
